@@ -19,7 +19,9 @@ FINDINGS = {1: "region-not-clamped", 2: "line-number-nonpositive", 3: "vertical-
             4: "annotation-charref-alias", 5: "timestamp-span-nesting", 6: "charref-legacy-names-only",
             7: "ruby-structure", 8: "cue-without-payload"}
 CLAUSES = {1: "S printer and harness printer disagree (harness defect)", 2: "to_model raised", 3: "number of paragraphs differs from the number of cues",
-           10: "begin/end differ from the printed timestamps", 20: "region contradicts the cue settings",
+           10: "begin/end differ from the printed timestamps", 20: "region leaves the root container or has a negative extent",
+           21: "writing mode / text alignment / display alignment of the region is not what the cue settings call for",
+           22: "the region edge fixed by the line setting is misplaced",
            30: "styled/timed text runs differ from the cue text", 40: "cues with equal settings do not share a region"}
 
 T = C.text
@@ -374,6 +376,52 @@ def gen_cue(rng, t0, settings, trig, with_id=None):
         cid = rng.choice(["1", "cue-7", "intro scene", "é", "42 - answer"])
     return (cid, ms_to_ts(rng, b, hours), ms_to_ts(rng, e, hours), settings, pl), e
 
+def sibling_group(rng):
+    """cue-setting lists that differ in ONE component while the cue boxes coincide: (family, [settings, ...]).
+    Whether two of them must share a region depends on that component alone (display alignment, text alignment and
+    writing mode are part of the region; the position alignment is not)."""
+    fam = rng.choice(["line-align", "line-align", "text-align", "vertical", "position-align", "line-form"])
+    common = []
+    if fam == "line-align":
+        # line 0% from its start edge = line 50% from its centre = line 100% (or row 23 of 23) from its end edge: the whole height
+        if rng.random() < 0.4: common.append(("align", rng.choice(ALIGNS[1:])))
+        vs = [[("line", ("pct", 0), None)], [("line", ("pct", 0), "start")], [("line", ("pct", 50), "center")],
+              [("line", ("pct", 100), "end")], [("line", ("num", 23), "end")]]
+        if rng.random() < 0.3:      # vertical: the centre alignment is a recorded finding, leave it out
+            common.append(("vertical", rng.choice(["lr", "rl"])))
+            vs = [[("line", ("pct", 0), None)], [("line", ("pct", 0), "start")], [("line", ("pct", 100), "end")], [("line", ("num", 40), "end")]]
+    elif fam == "text-align":
+        if rng.random() < 0.5: common.append(("line", *rng.choice(LINES[1:])))
+        if rng.random() < 0.3: common.append(("vertical", rng.choice(["lr", "rl"])))
+        if rng.random() < 0.3: common += [("position", rng.choice([10, 50, 90]), rng.choice(["line-left", "center", "line-right"])), ("size", rng.choice([10, 50]))]
+        vs = [[]] + [[("align", a)] for a in ALIGNS[1:]]
+    elif fam == "vertical":
+        if rng.random() < 0.5: common.append(("align", rng.choice(ALIGNS[1:])))
+        vs = [[], [("vertical", "lr")], [("vertical", "rl")]]          # the default box is the same in all three modes
+        if rng.random() < 0.5:
+            common.append(("line", *rng.choice([l for l in LINES[1:] if l[1] != "center"])))
+            vs = [[("vertical", "lr")], [("vertical", "rl")]]
+    elif fam == "position-align":
+        sz = rng.choice([10, 50]); p = rng.choice([25, 50, 75])
+        common.append(("size", sz))
+        if rng.random() < 0.5: common.append(("line", *rng.choice(LINES[1:])))
+        vs = [[("position", p, "center")], [("position", p - sz // 2, "line-left")], [("position", p + sz // 2, "line-right")]]
+    else:
+        if rng.random() < 0.4: common.append(("align", rng.choice(ALIGNS[1:])))
+        p = rng.choice([0, 50, 100])
+        vs = [[("line", ("pct", p), None)], [("line", ("pct", p), "start")]]
+        if p == 100: vs.append([("line", ("num", 23), None)])
+    k = rng.randrange(2, 5)
+    pick = [rng.choice(vs) for _ in range(k)]
+    if len({str(x) for x in pick}) == 1: pick[-1] = rng.choice([v for v in vs if v != pick[0]])
+    out = []
+    for v in pick:
+        st = common + v
+        if rng.random() < 0.3: st = v + common
+        out.append(st)
+    return fam, out
+
+
 def gen_file(rng, combos, trig):
     """one grammar-derived file; `combos` are the cue-setting lists to use (one cue each)"""
     header = rng.choice(["", "", " - Translation of that film", "\tkind: captions"])
@@ -505,17 +553,6 @@ def main():
     run = C.Run(PROP, "proof")
     run.hygiene()
     sys.path.insert(0, C.SRC)
-    # findings proposed by this check and not yet merged into KNOWN_FINDINGS.txt are honoured as listed
-    pend = []
-    try:
-        for line in open(C.VERIF + f"/findings_proposed/{PROP}.txt", encoding="utf-8"):
-            mt = re.match(r"finding\s+property=(\S+)\s+id=(\S+)\s+what=(.*)", line.strip())
-            if mt and mt.group(1) == PROP and mt.group(2) not in {f["id"] for f in run.findings}:
-                run.findings.append(dict(property=PROP, id=mt.group(2), what=mt.group(3))); pend.append(mt.group(2))
-    except FileNotFoundError:
-        pass
-    if pend: run.cov["findings_pending_merge"] = pend
-
     changed, errors = gen_tables.generate({"VttTables"})
     if errors:
         run.violation("table translator failed closed: " + "; ".join(errors), dict(kind="translator", errors=errors), False)
@@ -544,11 +581,20 @@ def main():
     order = list(range(N_COMBOS)); rng.shuffle(order)
     per = -(-N_COMBOS // n_gram) if thorough else 8
     gram = []; pos = 0
+    from collections import Counter as _Counter
+    sib_hist = _Counter()
     for k in range(n_gram):
         idx = [order[(pos + j) % N_COMBOS] for j in range(per)]; pos += per
         if rng.random() < 0.25: idx[rng.randrange(len(idx))] = idx[0]          # repeated settings: sharing
         trig = rng.random() < 0.35
-        f = gen_file(rng, [combo(i) for i in idx], trig)
+        sets = [combo(i) for i in idx]
+        if not thorough or rng.random() < 0.5:
+            fam, sib = sibling_group(rng); sib_hist[fam] += 1
+            if rng.random() < 0.5:                                             # adjacent, or spread over the file
+                at = rng.randrange(len(sets) + 1); sets[at:at] = sib
+            else:
+                for st in sib: sets.insert(rng.randrange(len(sets) + 1), st)
+        f = gen_file(rng, sets, trig)
         if trig and rng.random() < 0.06:                                       # a cue without payload
             j = rng.randrange(len(f[1]))
             if f[1][j][0] == "cue": c = f[1][j][1]; f[1][j] = ("cue", (c[0], c[1], c[2], c[3], []))
@@ -732,12 +778,28 @@ def main():
         for info, _ in sh:
             o = info["o"]; out_hist["raised " + o[1] if o[0] == "raised" else "ok"] += 1
     # distinct inputs that are non-trivial: files holding at least one timing line, cue texts holding markup or a reference
+    # measured on the code's output: pairs of cues of one file whose boxes coincide (1e-9) and that do / do not share a region
+    box_pairs = _Counter()
+    for info, _ in gram_cases:
+        o = info["o"]
+        if o[0] != "ok": continue
+        regs, paras = o[1]
+        for i in range(len(paras)):
+            for j in range(i + 1, len(paras)):
+                a, b = regs[paras[i][2]], regs[paras[j][2]]
+                if all(abs(Fraction(x) - Fraction(y)) <= Fraction(1, 10 ** 9) for x, y in zip(a[1:5], b[1:5])):
+                    if paras[i][2] == paras[j][2]: box_pairs["same box, shared region"] += 1
+                    else:
+                        d = [n for n, x, y in (("mode", a[0], b[0]), ("display", a[5], b[5]), ("text", a[6], b[6])) if x != y]
+                        box_pairs["same box, regions differ in " + "+".join(d)] += 1
     distinct = len({x[0] for x in tok_cases if "<" in x[0] or "&" in x[0]}) + \
         len({t for t in set(texts) | set(mut) | {w[0] for w in written} if "-->" in t})
     run.cov.update(evaluations=n_eval, distinct_nontrivial=distinct,
                    rule="grammar-derived WebVTT files (header variants, NOTE/STYLE/REGION blocks, cues with/without identifier and hours, "
                         f"settings taken from a shuffled enumeration of the {N_COMBOS} combinations of line {{-3,-1,0,1,5,0%,50%,100%}} x alignment, "
-                        "position x alignment, size, align, vertical; cue-text trees with b/i/u/c.class/lang/v nested to depth 3, ruby/rt, "
+                        "position x alignment, size, align, vertical, plus in every quick file (every second thorough file) a group of 2-4 cues whose "
+                        "settings differ in one component only - line alignment, text alignment, writing mode, position alignment or the form of "
+                        "the line value - while their boxes coincide; cue-text trees with b/i/u/c.class/lang/v nested to depth 3, ruby/rt, "
                         "named and numeric character references, inline timestamps, multi-line payloads), each printed by the harness and "
                         "re-printed by S inside Coq; mutated copies, hand-written malformed files and the bundled .vtt corpus (model = code "
                         "only); outputs of ttconv.vtt.writer.from_model over random documents built with the model API under its 8 "
@@ -747,6 +809,7 @@ def main():
                    samples=[dict(file=texts[0][:400]), dict(cue_text=cue_texts[-1]), dict(written=written[0][0][:300])],
                    files=dict(grammar=len(gram_cases), mutated_and_corpus=len(mut_cases), corpus=len(corpus), corpus_skipped=corpus_skipped, writer_outputs=len(wr_cases), cue_texts=len(tok_cases)),
                    cues=ncues, setting_combinations_covered=len(combos_seen), setting_combinations_total=N_COMBOS,
+                   sibling_groups=dict(sib_hist), coinciding_box_pairs=dict(box_pairs),
                    block_histogram=dict(hist), cue_node_histogram=dict(tags), outcome_histogram=dict(out_hist),
                    writer_failures=dict(Counter(wr_fail)), regions_split_by_float_rounding=FLOAT_SPLIT_REGIONS[0],
                    model_code_mismatches=len(m_bad), s_failures_on_code=len(s_fail),
